@@ -288,6 +288,27 @@ def run(ctx: Ctx) -> int:
         )
     ctx.oblige("C17.e", ok, merges[0] if merges else hs, "the chosen section is completed with the sub-parser's environment (if env) or defaults (if defaults); the given values win and the result is stored back" if ok else why, fn=hs, construct="section completed")
 
+    if len(srcs) == 2:
+        from .util import guard_atoms as _ga17
+
+        by_at = {call_leaf(s.value): _ga17(s, stop=lp) for s in srcs}
+        env_first = all(isinstance(t, ast.Name) and t.id == "env" and pol for t, pol in by_at.get("parse_env", [(None, False)]))
+        def_second = {(t.id, pol) for t, pol in by_at.get("get_defaults", []) if isinstance(t, ast.Name)} == {("env", False), ("defaults", True)}
+        ok = env_first and def_second
+        ctx.oblige("C17.e", ok, srcs[0], "the sub-parser's environment is read whenever env is on (it includes the defaults); its plain defaults only when env is off" if ok else "the env / defaults alternatives of handle_subcommands are tested in the wrong order: with env and defaults both on (the normal case) only the plain defaults of the sub-parser are merged - a sub-command chosen in a config file loses its APP_FIT__EPOCHS setting, while the same sub-command chosen on the command line keeps it", fn=hs, construct="env before defaults")
+    rec_calls = [c for c in calls_in(lp) if call_leaf(c) == "handle_subcommands"]
+    ctx.need(rec_calls, "handle_subcommands: recursion for inner subcommands")
+    ghs = ctx.cfg(hs)
+    store_nodes = ghs.cn([s for s in walk_local(lp) if isinstance(s, ast.Assign) and any(call_leaf(c) == "merge_config" for c in calls_in(s))]) + ghs.cn(srcs)
+    src_nodes = ghs.cn(srcs)
+    # inside one iteration: from the loop head, the recursion is reached only after the environment / defaults of
+    # THIS level were looked at (the nested level reads what this level stored)
+    heads = [t for (_, t, _l) in ghs.branch_edges(lp, "loop")]
+    ctx.need(heads, "handle_subcommands: loop body entry")
+    with_nodes = ghs.cn([w for w in walk_local(lp) if isinstance(w, ast.With) and any(x in srcs for x in ast.walk(w))])
+    ok = bool(with_nodes) and ghs.must_pass(with_nodes, heads, ghs.cn(rec_calls))
+    ctx.oblige("C17.e", ok, rec_calls[0], "inner subcommands are handled after this level's section was completed" if ok else "the recursion into inner subcommands runs before this level's environment / defaults were merged: an inner subcommand named only by APP_A__SUBCOMMAND or by the sub-parser's own default config file is not seen yet - the parse fails with 'a.subcommand ... not provided'", fn=hs, construct="this level before inner levels")
+
     # ---------------- C17.f required / unknown -----------------------------------------------------------------
     rz = [r for r in walk_local(gs) if isinstance(r, ast.Raise) and isinstance(r.exc, ast.Call) and call_leaf(r.exc) == "NSKeyError"]
     ok = bool(rz)
